@@ -398,10 +398,10 @@ pub fn prop() -> Prop {
         ],
         subs: vec![
             Sub { name: "length-box", kind: Kind::Exhaustive(length_box) },
-            Sub { name: "random-count-value", kind: Kind::Random { f: random_count_value, quick: 24_000, thorough: 1_200_000, len: 400 } },
-            Sub { name: "random-regex", kind: Kind::Random { f: random_regex, quick: 24_000, thorough: 1_200_000, len: 300 } },
-            Sub { name: "random-regex-edges", kind: Kind::Random { f: random_regex_edges, quick: 4_000, thorough: 100_000, len: 64 } },
-            Sub { name: "random-regex-known-regions", kind: Kind::Random { f: random_regex_known_regions, quick: 4_000, thorough: 100_000, len: 64 } },
+            Sub { name: "random-count-value", kind: Kind::Random { f: random_count_value, quick: 96_000, thorough: 1_920_000, len: 400 } },
+            Sub { name: "random-regex", kind: Kind::Random { f: random_regex, quick: 96_000, thorough: 1_920_000, len: 300 } },
+            Sub { name: "random-regex-edges", kind: Kind::Random { f: random_regex_edges, quick: 16_000, thorough: 320_000, len: 64 } },
+            Sub { name: "random-regex-known-regions", kind: Kind::Random { f: random_regex_known_regions, quick: 16_000, thorough: 320_000, len: 64 } },
         ],
         direct: Some(direct),
         selftest: Some(crate::rfc::selftest),
